@@ -112,7 +112,7 @@ def shard(p):
                 else:
                     rd = sorted({(float(s), G.si.fmt_dims(dd)) for (s, dd, iv) in R.readings(w)})[:6]
                     fb = R.fallback_node(w)
-                    sig = ("c05:lexer-fallback:%s:%s" % fb) if fb else "c05:word-reading:%s=%s" % (w, ";".join("%s^%d@%d" % tuple(x) for x in parts))
+                    sig = "c05:lexer-fallback" if fb else "c05:word-reading:%s=%s" % (w, ";".join("%s^%d@%d" % tuple(x) for x in parts))
                     acc.violate(sig, "%r is read as %s = %s [%s]; its valid readings are %s" % (w, parts, sv, G.si.fmt_dims(dims), rd), case)
                 continue
             if wi % 37 == 0:
@@ -178,7 +178,7 @@ def shard(p):
             if kind == "concat":
                 if not R.reading_matches(text, sv, dims):
                     fb = R.fallback_node(text)
-                    acc.violate(("c05:lexer-fallback:%s:%s" % fb) if fb else "c05:concat-reading:" + text, "%r is read as %s = %s [%s], which is no product of [prefix]name readings of its pieces" % (text, parts, sv, G.si.fmt_dims(dims)), case)
+                    acc.violate("c05:lexer-fallback" if fb else "c05:concat-reading:" + text, "%r is read as %s = %s [%s], which is no product of [prefix]name readings of its pieces" % (text, parts, sv, G.si.fmt_dims(dims)), case)
             else:
                 wv, wd, wp = want
                 if (sv, dims) != (wv, wd):
